@@ -670,6 +670,32 @@ def check_diagram(pid, tier):
     if pid == "C13":
         import check_simple
         check_simple.c13_combinators(chk, tier)
+        # the width bound must not depend on the ranking being TOTAL: the same compilations with a coarse ranking (all states tied), on the
+        # implementation only (which of the tied nodes survives is up to the library's unstable sort, so there is no model to compare with)
+        cblocks = []; cmeta = []
+        for (I, metas), blk in list(zip(st.meta, st.blocks))[: (60 if tier == "quick" else 600)]:
+            if I.notimp: continue
+            cblocks.append([blk[0], "RK 1"] + [l for l in blk[1:] if l.startswith("M ")] + ["RK 0"])
+            cmeta.append((I, [mm for mm in metas[1:] if "viz" not in mm]))
+        shards, couts = run_sharded("impl", "mdd", cblocks, tag=pid + "coarse")
+        cres = [None] * len(cblocks)
+        for k in range(len(shards)):
+            p_ = 0
+            for (idx, blk) in shards[k]:
+                n_ = sum(1 for l in blk if l.startswith("M "))
+                cres[idx] = couts[k][p_:p_ + n_]; p_ += n_
+        ncoarse = 0
+        for (I, metas), outs in zip(cmeta, cres):
+            for meta, li in zip(metas, outs):
+                fi = parse_fields(li)
+                if fi.get("status") != "ok": continue
+                ncoarse += 1
+                pf, per_layer = protocol_failures(I, meta, fi)
+                for (p2, msg) in pf:
+                    if p2 == "C13":
+                        fails.append((pid, "width (coarse ranking: every pair of states ties)", msg, {"instance": I.line(), "flavour": FLV[meta["flv"]], "type": CT[meta["ct"]],
+                                                                                       "width": meta["w"], "ranking": "coarse", "log": fi.get("LOG", "")[:1500]}))
+        chk.cov["coarse_ranking_compilations"] = ncoarse
     if dis and not fails and pid in ("C06", "C07", "C08"):
         # the correspondence broke but every clause held so far: widen the search for a concrete failing input (six times as many
         # instances from another seed; the clauses are evaluated on the implementation's answers only)
